@@ -28,10 +28,11 @@ from fractions import Fraction
 
 from vf import gen, refsem
 from vf.c11_lib import (
-    BIGPOW_NC_MAX, NotInFragment, bigpow, box_for, expand_nf, flatten_nf, float_trees, fold_nf,
-    history_pool,
+    BIGPOW_NC_MAX, NotInFragment, bigpow, box_for, expand_nf, flatten_nf, float_literals,
+    float_trees, fold_nf, history_pool, may_yield_floats,
     in_collector_fragment, is_closed, is_polynomial, is_rational, max_exponent, nc_eval,
-    param_inputs, poly4, powpow, rename, rf_chain4, rf_depth2, rf_depth3, rf_value, xeval,
+    param_inputs, poly4, powpow, quotient_inputs, rename, rf_chain4, rf_depth2, rf_depth3,
+    rf_value, xeval,
 )
 from vf.envs import SPECIAL_NAMES, base_env
 from vf.exact import NCPoly
@@ -247,6 +248,14 @@ def rf_compare(spec, out):
             return "domain", f"is undefined at {at} where the input is {v}"
         if w != v:
             return "value", f"= {w} at {at}; the input is {v} there"
+    fl = float_literals(out)
+    if fl and not may_yield_floats(spec):
+        # no float literal and no variable-free division in the input: nothing licenses Python's
+        # float arithmetic, float constants of the output count as the exact dyadics they are
+        if not (rf_value(out, names_out, face_value=True) == want):
+            return "inexact", (f"contains the rounded float constant(s) {fl[:2]!r} although the "
+                               "input has only integer constants and no variable-free division: "
+                               "an exact value silently became an approximation")
     return None
 
 
@@ -504,7 +513,9 @@ class C11(Check):
             "also 2**30 and denormals) on which float arithmetic is exact (rf-floats), "
             "powers of powers (v**a)**b, (v**a * w)**b [thorough also three levels] as terms and "
             "as factors of terms next to plain terms, times a binomial and summed pairwise "
-            "(rf-powpow), and (rf-params) sums of monomials written with explicit power factors "
+            "(rf-powpow), quotients of composite numerators by integers that are not powers of "
+            "two, alone and under products, powers and quotients (rf-quot), and (rf-params) sums "
+            "of monomials written with explicit power factors "
             "of both "
             "variables, "
             "their squares and products with a binomial, x TermCollector and distribute under "
@@ -538,6 +549,10 @@ class C11(Check):
         "unless they are dyadics with a mantissa of <= 32 bits (deliberate constants, exact); the "
         "rf-floats family only contains trees on which every combination of the constants by "
         "+ and * is exact in double arithmetic (rounding is not the subject)",
+        "exactness: when the input has no float literal and no variable-free division (Quotient "
+        "or negative literal power without variables), nothing licenses float arithmetic and "
+        "float constants of the output are taken as the exact dyadic rationals they are (kind "
+        "'inexact' if the value only matches after rounding); otherwise they are decoded as above",
         "TermCollector's fragment is its documented precondition: every summand of every sum is "
         "a product, a power, a quotient, a leaf or variable-free; on other inputs a RuntimeError "
         "is accepted, "
@@ -571,6 +586,7 @@ class C11(Check):
             ("rf-bigpow", lambda: (("rf", s) for s in bigpow(tier))),
             ("rf-floats", lambda: float_trees(tier)),
             ("rf-powpow", lambda: (("rf", s) for s in powpow(tier))),
+            ("rf-quot", lambda: (("rf", s) for s in quotient_inputs(tier))),
             ("rf-params", lambda: (("rfp", s) for s in param_inputs(tier))),
             ("rf-history", lambda: self.gen_history(tier)),
             ("fa-depth2", lambda: (("fa", s) for s in gen.depth2(EVAL_CTORS, lv))),
